@@ -269,7 +269,12 @@ def run_shard(spec, tier, seed):
                         if abs((d1 - d0) - inc) > 0.51:
                             return f'{k} +{inc} (N.C. tax withheld, owner {base_ans.get(k.split(".")[0] + ".belongs_to")}) moved the N.C. overpayment-minus-tax-due by {d1 - d0:.2f}'
                         return None
-                    compare(f'withholding+:{inc}', ans, chk, 'nc:' + re.sub(r':\d+', '', k))
+                    # mechanism probe: the whole-dollar line this box goes into (20a for the taxpayer's and joint statements, 20b for
+                    # the spouse's) is a sum ending in exactly 50 cents, before or after the increment (it is the same fraction)
+                    grp = 'spouse' if base_ans.get(k.split('.')[0] + '.belongs_to') == 'spouse' else 'you'
+                    tot = sum(fnum(base_ans[k2]) for k2 in swh if ('spouse' if base_ans.get(k2.split('.')[0] + '.belongs_to') == 'spouse' else 'you') == grp)
+                    half = abs((round(tot * 100) % 100) - 50) < 1e-6
+                    compare(f'withholding+:{inc}', ans, chk, 'nc/' + re.sub(r':\d+', '', k) + ('|sum-ends-in-50-cents' if half else ''))
                     res.count('pairs_nc_withholding+')
             if len(res.samples) < 1:
                 res.sample({'persona': p.describe(), 'pairs_compared_so_far': res.counters.get('pairs_compared', 0)})
